@@ -345,6 +345,9 @@ def _r5(ctx):
 
 
 def run(ctx):
+    C.require_locals(ctx, ctx.func('db_interface._get_asmbench_output'), ['db_entries', 'entry'])
+    C.require_locals(ctx, ctx.func('db_interface._get_ibench_output'), ['db_entries', 'entry', 'instruction', 'line'])
+    C.require_locals(ctx, ctx.func('db_interface.import_benchmark_output'), ['db_entries', 'mm', 'bench_type'])
     _r1(ctx)
     _r2(ctx)
     _r3(ctx)
